@@ -198,6 +198,13 @@ def conclude(prop, pack, pack_name, a, seed, t0, results, params_of, extra_cov=N
         if st == 'unknown':
             undecided.append((oid, 'solver unknown / path not explored'))
     missing = sorted(o for o in ledger if o not in obligations) if not a.filter else []
+    # vacuity guard at harness granularity: a harness family that was proved on the baseline tree and generates nothing at all
+    # now means a contract no longer binds (function renamed/removed).  Individual obligation names missing inside a family that
+    # still runs are reported as information only (they change when the code takes other paths or a contract clause is renamed).
+    fam = lambda o: o.split('[', 1)[0].split('::', 1)[0]
+    live_families = {fam(o) for o in obligations}
+    missing_info = len(missing)
+    missing = [o for o in missing if fam(o) not in live_families]
 
     n_proof = sum(1 for st, b in obligations.values() if not b)
     n_disch = sum(1 for st, b in obligations.values() if not b and st in ('proved', 'known-finding'))
@@ -222,6 +229,8 @@ def conclude(prop, pack, pack_name, a, seed, t0, results, params_of, extra_cov=N
               f"(contract no longer binds), e.g. {missing[:3]}")
     if vacuous and a.verbose:
         print(f"vacuous instances (assumptions unsatisfiable; not counted): {vacuous}")
+    if missing_info and not missing and not violations:
+        print(f"note: {missing_info} baseline obligation name(s) were not generated on this run (their harness families still run)")
     for oid, rel, suffix in violations:
         print(f"VIOLATION property={prop} replay={rel}{suffix}")
         print(f"    failed obligation: {oid}")
